@@ -16,6 +16,7 @@ import (
 	"fmt"
 	"go/ast"
 	"go/token"
+	"sort"
 	"strings"
 )
 
@@ -32,6 +33,9 @@ const (
 	kRefs
 	kURL
 	kNil
+	kAgePair // a standalone Age value: (duration, timestamp)
+	kT       // time.Time (ns)
+	kRaw     // RawDeltaSeconds: the unparsed argument of a directive
 )
 
 type eenv struct {
@@ -58,6 +62,8 @@ type etr struct {
 	fresh   int
 	labels  map[string][]ast.Stmt
 	isBgFun bool
+	pure    bool // the function computes a value: return e is e
+	cur     string
 }
 
 func (t *etr) gensym(p string) string {
@@ -73,13 +79,14 @@ type member struct {
 var fieldTable = map[kind]map[string]member{
 	kReq:   {"Header": {"q_hdr (%s)", kHdr}, "Method": {"q_method (%s)", kS}, "URL": {"q_url (%s)", kURL}},
 	kResp:  {"Header": {"p_hdr (%s)", kHdr}, "StatusCode": {"p_status (%s)", kZ}},
-	kEntry: {"ID": {"e_id (%s)", kS}, "Data": {"response_of (%s)", kResp}},
+	kEntry: {"ID": {"e_id (%s)", kS}, "Data": {"response_of (%s)", kResp}, "RequestedAt": {"e_req_at (%s)", kT}, "ReceivedAt": {"e_recv_at (%s)", kT}},
 	kCtx: {"URLKey": {"rc_url_key (%s)", kS}, "Start": {"rc_start (%s)", kZ}, "End": {"rc_end (%s)", kZ}, "CCReq": {"rc_cc_req (%s)", kCCq},
 		"Stored": {"rc_stored (%s)", kEntry}, "Refs": {"rc_refs (%s)", kRefs}, "RefIndex": {"rc_ref_index (%s)", kZ},
 		"Freshness": {"rc_fresh (%s)", kFresh}, "NoStale": {"rc_no_stale (%s)", kB}},
 	kFresh: {"IsStale": {"f_stale (%s)", kB}, "Expired": {"f_expired (%s)", kB}, "ReqMaxAgeExceeded": {"f_req_max_age_exceeded (%s)", kB},
 		"UsefulLife": {"f_life (%s)", kD}, "Age": {"%s", kAge}},
-	kAge: {"Value": {"f_age (%s)", kD}, "Timestamp": {"f_age_ts (%s)", kZ}},
+	kAge:     {"Value": {"f_age (%s)", kD}, "Timestamp": {"f_age_ts (%s)", kZ}},
+	kAgePair: {"Value": {"fst (%s)", kD}, "Timestamp": {"snd (%s)", kT}},
 }
 
 var methodTable = map[kind]map[string]member{
@@ -108,6 +115,15 @@ var pureFuncs = map[string]struct {
 	"r.uk.URLKey":                        {"make_url_key (%s)", kS, 1},
 	"sentValidatorsOf":                   {"sent_validators_of (%s) (%s)", kB, 2},
 	"withConditionalHeaders":             {"with_conditional_headers (%s) (%s)", kReq, 2},
+	"isHeuristicallyCacheableCode":       {"is_heuristically_cacheable (%s)", kB, 1},
+	"heuristicFreshness":                 {"heuristic_freshness (%s) (%s)", kD, 2},
+}
+
+// accessors that return (value, ok): the model's option-valued counterpart and the kind of the value
+var optionAccessors = map[kind]map[string]member{
+	kCCq: {"MaxAge": {"req_max_age (%s)", kD}, "MinFresh": {"req_min_fresh (%s)", kD}, "MaxStale": {"req_max_stale_raw (%s)", kRaw}},
+	kCCr: {"MaxAge": {"resp_max_age (%s)", kD}, "StaleWhileRevalidate": {"resp_swr (%s)", kD}},
+	kRaw: {"Value": {"delta_seconds (%s)", kD}},
 }
 
 var statusNames = map[string]string{"CacheStatusHit": "HIT", "CacheStatusMiss": "MISS", "CacheStatusStale": "STALE",
@@ -160,11 +176,51 @@ func (t *etr) expr(e ast.Expr, env *eenv) term {
 			}
 			return term{fmt.Sprintf(pf.tmpl, args...), pf.k}
 		}
-		if fn == "r.clock.Since" && len(x.Args) == 1 {
+		if (fn == "r.clock.Since" || fn == "clock.Since") && len(x.Args) == 1 {
 			if env.now == "" {
 				die("%s: clock.Since before the clock reading of this path is known", t.name)
 			}
 			return term{"time_sub " + env.now + " (" + t.expr(x.Args[0], env).s + ")", kD}
+		}
+		if (fn == "f.clock.Now" || fn == "r.clock.Now" || fn == "clock.Now") && len(x.Args) == 0 {
+			if env.now == "" {
+				die("%s: clock.Now before the clock reading of this path is known", t.name)
+			}
+			return term{env.now, kT}
+		}
+		if (fn == "min" || fn == "max") && len(x.Args) == 2 {
+			a, b := t.expr(x.Args[0], env), t.expr(x.Args[1], env)
+			return term{"Z." + fn + " (" + a.s + ") (" + b.s + ")", kD}
+		}
+		if fn == "saturatingAdd" && len(x.Args) == 2 {
+			return term{"go_sat_add (" + t.expr(x.Args[0], env).s + ") (" + t.expr(x.Args[1], env).s + ")", kD}
+		}
+		if (fn == "int64" || fn == "int") && len(x.Args) == 1 {
+			return t.expr(x.Args[0], env)
+		}
+		if fn == "time.Duration" && len(x.Args) == 1 {
+			a := t.expr(x.Args[0], env)
+			return term{a.s, kD}
+		}
+		if fn == "calculateCurrentAge" && len(x.Args) == 5 {
+			if env.now == "" {
+				die("%s: calculateCurrentAge before the clock reading is known", t.name)
+			}
+			// reads the clock twice (Since, Now) at the instant of the caller's reading
+			return term{fmt.Sprintf("(current_age (%s) (%s) (%s) (%s) %s, %s)", t.expr(x.Args[1], env).s, t.expr(x.Args[2], env).s, t.expr(x.Args[3], env).s, t.expr(x.Args[4], env).s, env.now, env.now), kAgePair}
+		}
+		if sel, ok := x.Fun.(*ast.SelectorExpr); ok && len(x.Args) == 1 && (sel.Sel.Name == "After" || sel.Sel.Name == "Before" || sel.Sel.Name == "Sub") {
+			if recv := t.expr(sel.X, env); recv.k == kT || recv.k == kZ {
+				arg := t.expr(x.Args[0], env)
+				switch sel.Sel.Name {
+				case "After":
+					return term{"(" + arg.s + ") <? (" + recv.s + ")", kB}
+				case "Before":
+					return term{"(" + recv.s + ") <? (" + arg.s + ")", kB}
+				case "Sub":
+					return term{"time_sub (" + recv.s + ") (" + arg.s + ")", kD}
+				}
+			}
 		}
 		if fn == "len" && len(x.Args) == 1 {
 			a := t.expr(x.Args[0], env)
@@ -293,7 +349,7 @@ func (t *etr) expr(e ast.Expr, env *eenv) term {
 				die("%s: comparison of a list with nil: %s", t.name, key)
 			}
 			var r string
-			if a.k == kS || b.k == kS {
+			if a.k == kS || b.k == kS || a.k == kRaw || b.k == kRaw {
 				switch x.Op {
 				case token.EQL:
 					r = "beq (" + a.s + ") (" + b.s + ")"
@@ -319,9 +375,15 @@ func (t *etr) expr(e ast.Expr, env *eenv) term {
 				r = "(" + b.s + ") <=? (" + a.s + ")"
 			}
 			return term{r, kB}
+		case token.MUL:
+			a, b := t.expr(x.X, env), t.expr(x.Y, env)
+			return term{"wrap64 ((" + a.s + ") * (" + b.s + "))", kD}
+		case token.QUO:
+			a, b := t.expr(x.X, env), t.expr(x.Y, env)
+			return term{"Z.quot (" + a.s + ") (" + b.s + ")", kD}
 		case token.ADD, token.SUB:
 			a, b := t.expr(x.X, env), t.expr(x.Y, env)
-			if a.k == kD && b.k == kD {
+			if (a.k == kD || a.k == kZ) && (b.k == kD || b.k == kZ) && (a.k == kD || b.k == kD) {
 				op := "+"
 				if x.Op == token.SUB {
 					op = "-"
@@ -330,6 +392,34 @@ func (t *etr) expr(e ast.Expr, env *eenv) term {
 			}
 		}
 	case *ast.CompositeLit:
+		if exprString(x.Type) == "Age" {
+			f := map[string]string{}
+			for _, el := range x.Elts {
+				kv := el.(*ast.KeyValueExpr)
+				f[exprString(kv.Key)] = t.expr(kv.Value, env).s
+			}
+			if len(f) != 2 || f["Value"] == "" || f["Timestamp"] == "" {
+				die("%s: Age literal without Value / Timestamp", t.name)
+			}
+			return term{"(" + f["Value"] + ", " + f["Timestamp"] + ")", kAgePair}
+		}
+		if exprString(x.Type) == "Freshness" {
+			f := map[string]term{}
+			for _, el := range x.Elts {
+				kv := el.(*ast.KeyValueExpr)
+				f[exprString(kv.Key)] = t.expr(kv.Value, env)
+			}
+			for _, n := range []string{"IsStale", "Age", "UsefulLife", "Expired", "ReqMaxAgeExceeded"} {
+				if _, ok := f[n]; !ok {
+					die("%s: Freshness literal without %s", t.name, n)
+				}
+			}
+			if len(f) != 5 || f["Age"].k != kAgePair {
+				die("%s: Freshness literal of an unexpected shape", t.name)
+			}
+			return term{fmt.Sprintf("{| f_stale := %s; f_age := fst (%s); f_age_ts := snd (%s); f_life := %s; f_expired := %s; f_req_max_age_exceeded := %s |}",
+				f["IsStale"].s, f["Age"].s, f["Age"].s, f["UsefulLife"].s, f["Expired"].s, f["ReqMaxAgeExceeded"].s), kFresh}
+		}
 		if exprString(x.Type) == "Response" || exprString(x.Type) == "ResponseRef" {
 			f := map[string]string{}
 			for _, el := range x.Elts {
@@ -372,7 +462,7 @@ func (t *etr) expr(e ast.Expr, env *eenv) term {
 		}
 		return term{coqInt(v.i), kZ}
 	}
-	die("%s: expression outside the subset: %s", t.name, key)
+	die("%s: expression outside the subset: %s (in: %s)", t.name, key, t.cur)
 	return term{}
 }
 
@@ -388,6 +478,12 @@ func (t *etr) cond(e ast.Expr, env *eenv) string {
 func (t *etr) leaf(results []ast.Expr, env *eenv) string {
 	if t.unit {
 		return "Ret tt"
+	}
+	if t.pure {
+		if len(results) != 1 {
+			die("%s: a pure function returns one value", t.name)
+		}
+		return t.expr(results[0], env).s
 	}
 	if len(results) == 1 {
 		if c, ok := results[0].(*ast.CallExpr); ok {
@@ -614,6 +710,224 @@ func (t *etr) effect(lhs []string, call *ast.CallExpr, env *eenv, k func(*eenv) 
 	return "", false
 }
 
+// ---------- blocks that only assign: joined with conditional expressions instead of copies of what follows ----------
+
+// assignOnly: the statement only (re)assigns pure values to variables: x = e, x := e, and if / tagless switch made of such
+func assignOnly(st ast.Stmt) bool {
+	switch s := st.(type) {
+	case *ast.AssignStmt:
+		if len(s.Lhs) != 1 || len(s.Rhs) != 1 {
+			return len(s.Lhs) == 3 && len(s.Rhs) == 1 && strings.HasSuffix(exprString(s.Rhs[0]), ".ExpiresHeader()")
+		}
+		if exprString(s.Lhs[0]) == "_" {
+			return false
+		}
+		if _, ok := s.Lhs[0].(*ast.Ident); !ok {
+			return false
+		}
+		if c, ok := s.Rhs[0].(*ast.CallExpr); ok {
+			fn := exprString(c.Fun)
+			if strings.HasPrefix(fn, "r.") && fn != "r.clock.Since" || fn == "append" || fn == "maps.Collect" || fn == "make" || fn == "slices.Grow" {
+				return false
+			}
+		}
+		return true
+	case *ast.IfStmt:
+		if as, ok := s.Init.(*ast.AssignStmt); ok && len(as.Lhs) == 1 {
+			return false
+		}
+		for _, b := range s.Body.List {
+			if !assignOnly(b) {
+				return false
+			}
+		}
+		switch e := s.Else.(type) {
+		case nil:
+		case *ast.BlockStmt:
+			for _, b := range e.List {
+				if !assignOnly(b) {
+					return false
+				}
+			}
+		case *ast.IfStmt:
+			return assignOnly(e)
+		default:
+			return false
+		}
+		return true
+	case *ast.SwitchStmt:
+		if s.Init != nil || s.Tag != nil {
+			return false
+		}
+		for _, cc := range s.Body.List {
+			for _, b := range cc.(*ast.CaseClause).Body {
+				if !assignOnly(b) {
+					return false
+				}
+			}
+		}
+		return true
+	}
+	return false
+}
+
+// merge: the environment after a two-way choice; a variable bound differently on the two sides becomes a conditional
+func lookupVF(e *eenv, name string) (term, bool) {
+	if v, ok := e.vars[name]; ok {
+		return v, true
+	}
+	if f, ok := e.facts[name]; ok {
+		if f {
+			return term{"true", kB}, true
+		}
+		return term{"false", kB}, true
+	}
+	return term{}, false
+}
+
+func (t *etr) merge(wrap func(thn, els string) string, base, thn, els *eenv) *eenv {
+	out := base.clone()
+	names := map[string]bool{}
+	for n := range base.vars {
+		names[n] = true
+	}
+	for n := range base.facts {
+		if !strings.ContainsAny(n, " .!=") {
+			names[n] = true // a boolean variable known to be constant so far
+		}
+	}
+	for name := range names {
+		bv, _ := lookupVF(base, name)
+		tv, ok1 := lookupVF(thn, name)
+		ev, ok2 := lookupVF(els, name)
+		if !ok1 {
+			tv = bv
+		}
+		if !ok2 {
+			ev = bv
+		}
+		if tv.s != ev.s {
+			delete(out.facts, name)
+			out.vars[name] = term{wrap(tv.s, ev.s), bv.k}
+		} else if tv.s != bv.s {
+			delete(out.facts, name)
+			out.vars[name] = term{tv.s, bv.k}
+		}
+	}
+	return out
+}
+
+func (t *etr) execAssign(st ast.Stmt, env *eenv) *eenv {
+	switch s := st.(type) {
+	case *ast.AssignStmt:
+		if len(s.Lhs) == 3 {
+			ent := t.expr(s.Rhs[0].(*ast.CallExpr).Fun.(*ast.SelectorExpr).X, env)
+			eh := "expires_header (p_hdr (response_of (" + ent.s + ")))"
+			lhs := names(s.Lhs)
+			e2 := env.clone()
+			e2.vars[lhs[0]] = term{"match snd (" + eh + ") with Some ex => ex | None => 0 end", kT}
+			e2.vars[lhs[1]] = term{"fst (" + eh + ")", kB}
+			e2.vars[lhs[2]] = term{"match snd (" + eh + ") with Some _ => true | None => false end", kB}
+			return e2
+		}
+		e2 := env.clone()
+		v := t.expr(s.Rhs[0], env)
+		name := exprString(s.Lhs[0])
+		if old, ok := env.vars[name]; ok && s.Tok == token.ASSIGN && (old.k == kD || old.k == kZ) {
+			v.k = old.k
+		}
+		delete(e2.facts, name)
+		if v.k == kB && (v.s == "true" || v.s == "false") {
+			delete(e2.vars, name)
+			e2.facts[name] = v.s == "true"
+			return e2
+		}
+		e2.vars[name] = term{"(" + v.s + ")", v.k}
+		return e2
+	case *ast.IfStmt:
+		run := func(list []ast.Stmt, e *eenv) *eenv {
+			for _, b := range list {
+				e = t.execAssign(b, e)
+			}
+			return e
+		}
+		els := func(e *eenv) *eenv {
+			switch eb := s.Else.(type) {
+			case *ast.BlockStmt:
+				return run(eb.List, e)
+			case *ast.IfStmt:
+				return t.execAssign(eb, e)
+			}
+			return e
+		}
+		if s.Init != nil {
+			as := s.Init.(*ast.AssignStmt)
+			call, ok := as.Rhs[0].(*ast.CallExpr)
+			if !ok || len(as.Lhs) != 2 {
+				die("%s: if-header outside the subset: %s", t.name, stmtString(s.Init))
+			}
+			sel, ok := call.Fun.(*ast.SelectorExpr)
+			if !ok {
+				die("%s: if-header outside the subset: %s", t.name, stmtString(s.Init))
+			}
+			recv := t.expr(sel.X, env)
+			m, ok := optionAccessors[recv.k][sel.Sel.Name]
+			if !ok {
+				die("%s: if-header call %s is not an option accessor", t.name, exprString(call))
+			}
+			name, okName := exprString(as.Lhs[0]), exprString(as.Lhs[1])
+			e2 := env.clone()
+			e2.vars[name] = term{"v_" + name, m.k}
+			delete(e2.vars, okName)
+			e2.facts[okName] = true
+			c := t.cond(s.Cond, e2)
+			thn := run(s.Body.List, e2)
+			delete(thn.vars, name)
+			elsEnv := els(env)
+			opt := fmt.Sprintf(m.tmpl, recv.s)
+			return t.merge(func(a, b string) string {
+				inner := a
+				if c != "true" {
+					inner = "if " + c + " then " + a + " else " + b
+				}
+				return "match " + opt + " with Some v_" + name + " => " + inner + " | None => " + b + " end"
+			}, env, thn, elsEnv)
+		}
+		c := t.cond(s.Cond, env)
+		switch c {
+		case "true":
+			return run(s.Body.List, env)
+		case "false":
+			return els(env)
+		}
+		thn := run(s.Body.List, env)
+		elsEnv := els(env)
+		return t.merge(func(a, b string) string { return "if " + c + " then " + a + " else " + b }, env, thn, elsEnv)
+	case *ast.SwitchStmt:
+		clauses := s.Body.List
+		var from func(i int, e *eenv) *eenv
+		from = func(i int, e *eenv) *eenv {
+			if i >= len(clauses) {
+				return e
+			}
+			cl := clauses[i].(*ast.CaseClause)
+			run := e
+			for _, b := range cl.Body {
+				run = t.execAssign(b, run)
+			}
+			if cl.List == nil {
+				return run
+			}
+			c := t.cond(cl.List[0], e)
+			rest := from(i+1, e)
+			return t.merge(func(a, b string) string { return "if " + c + " then " + a + " else " + b }, e, run, rest)
+		}
+		return from(0, env)
+	}
+	die("%s: not an assignment block: %s", t.name, stmtString(st))
+	return nil
+}
+
 // block translates a statement list to a program term; rest translates what follows the list (nil: nothing may)
 func (t *etr) block(stmts []ast.Stmt, env *eenv, rest func(*eenv) string) string {
 	if len(stmts) == 0 {
@@ -626,6 +940,44 @@ func (t *etr) block(stmts []ast.Stmt, env *eenv, rest func(*eenv) string) string
 		return rest(env)
 	}
 	tail := func(e *eenv) string { return t.block(stmts[1:], e, rest) }
+	t.cur = stmtString(stmts[0])
+	switch st := stmts[0].(type) {
+	case *ast.IfStmt, *ast.SwitchStmt:
+		special := false
+		if is, ok := st.(*ast.IfStmt); ok && is.Else == nil && is.Init == nil && len(is.Body.List) == 1 {
+			_, special = is.Body.List[0].(*ast.RangeStmt)
+		}
+		if !special && assignOnly(st) {
+			after := t.execAssign(st, env)
+			// name what changed, so that later uses do not copy the conditional
+			out := ""
+			e2 := env.clone()
+			var changed []string
+			for name, v := range after.vars {
+				if old, ok := lookupVF(env, name); !ok || old.s != v.s {
+					changed = append(changed, name)
+				}
+			}
+			sort.Strings(changed)
+			for _, name := range changed {
+				v := after.vars[name]
+				if _, existed := lookupVF(env, name); !existed {
+					e2.vars[name] = v // declared inside: visible only through what it was merged into
+					continue
+				}
+				delete(e2.facts, name)
+				cn := t.gensym("v_" + name + "_")
+				out += "let " + cn + " := " + v.s + " in "
+				e2.vars[name] = term{cn, v.k}
+			}
+			for k, v := range after.facts {
+				if _, isVar := e2.vars[k]; !isVar {
+					e2.facts[k] = v
+				}
+			}
+			return out + tail(e2)
+		}
+	}
 	switch s := stmts[0].(type) {
 	case *ast.ReturnStmt:
 		return t.leaf(s.Results, env)
@@ -765,7 +1117,38 @@ func (t *etr) block(stmts []ast.Stmt, env *eenv, rest func(*eenv) string) string
 				return tail(e2)
 			}
 		}
+		if len(s.Lhs) == 3 && len(s.Rhs) == 1 && strings.HasSuffix(exprString(s.Rhs[0]), ".ExpiresHeader()") {
+			// (time, found, valid): the model's expires_header gives (found, Some time when valid)
+			ent := t.expr(s.Rhs[0].(*ast.CallExpr).Fun.(*ast.SelectorExpr).X, env)
+			eh := "expires_header (p_hdr (response_of (" + ent.s + ")))"
+			lhs := names(s.Lhs)
+			e2 := env.clone()
+			e2.vars[lhs[0]] = term{"match snd (" + eh + ") with Some ex => ex | None => 0 end", kT}
+			e2.vars[lhs[1]] = term{"fst (" + eh + ")", kB}
+			e2.vars[lhs[2]] = term{"match snd (" + eh + ") with Some _ => true | None => false end", kB}
+			return tail(e2)
+		}
 		if len(s.Lhs) == 2 && len(s.Rhs) == 1 {
+			rhs0 := exprString(s.Rhs[0])
+			lhs0 := names(s.Lhs)
+			if c, ok := s.Rhs[0].(*ast.CallExpr); ok && exprString(c.Fun) == "strconv.Atoi" && lhs0[1] == "_" && len(c.Args) == 1 {
+				// the error is dropped: on overflow the saturated value is used, on a syntax error 0
+				e2 := env.clone()
+				cn := t.gensym("v_" + lhs0[0] + "_")
+				e2.vars[lhs0[0]] = term{cn, kZ}
+				return "let " + cn + " := atoi_drop_err (" + t.expr(c.Args[0], env).s + ") in " + tail(e2)
+			}
+			if strings.HasPrefix(rhs0, "RawTime(") && strings.HasSuffix(rhs0, ").Value()") {
+				// (time, ok): the model's raw_time is an option
+				inner := s.Rhs[0].(*ast.CallExpr).Fun.(*ast.SelectorExpr).X.(*ast.CallExpr).Args[0]
+				eOk, eNo := env.clone(), env.clone()
+				eOk.vars[lhs0[0]] = term{"v_" + lhs0[0], kT}
+				delete(eOk.vars, lhs0[1])
+				delete(eNo.vars, lhs0[1])
+				eOk.facts[lhs0[1]] = true
+				eNo.facts[lhs0[1]] = false
+				return "match raw_time (" + t.expr(inner, env).s + ") with Some v_" + lhs0[0] + " => " + tail(eOk) + " | None => " + tail(eNo) + " end"
+			}
 			// respNoCacheFieldsRaw, hasRespNoCache := ccResp.NoCache(); ..., isRespNoCacheQualified := raw.Value()
 			rhs := exprString(s.Rhs[0])
 			lhs := names(s.Lhs)
@@ -804,25 +1187,73 @@ func (t *etr) block(stmts []ast.Stmt, env *eenv, rest func(*eenv) string) string
 				}
 			}
 		}
-		if s.Else != nil {
-			eb, ok := s.Else.(*ast.BlockStmt)
-			if !ok || s.Init != nil {
-				die("%s: else-if / if-header with else", t.name)
+		// what runs when the condition does not hold: the else part (a block or another if), then what follows
+		elsePart := func(e *eenv) string {
+			switch eb := s.Else.(type) {
+			case nil:
+				return tail(e)
+			case *ast.BlockStmt:
+				return t.block(eb.List, e, tail)
+			case *ast.IfStmt:
+				return t.block([]ast.Stmt{eb}, e, tail)
 			}
-			c := t.cond(s.Cond, env)
-			return "if " + c + " then " + t.block(s.Body.List, env, tail) + " else " + t.block(eb.List, env, tail)
+			die("%s: else part outside the subset", t.name)
+			return ""
 		}
 		if s.Init != nil {
-			// if swr, ok := ccResp.StaleWhileRevalidate(); ok { ... }
-			as, ok := s.Init.(*ast.AssignStmt)
-			if ok && len(as.Lhs) == 2 && len(as.Rhs) == 1 && exprString(s.Cond) == exprString(as.Lhs[1]) && strings.HasSuffix(exprString(as.Rhs[0]), ".StaleWhileRevalidate()") {
-				cc := t.expr(as.Rhs[0].(*ast.CallExpr).Fun.(*ast.SelectorExpr).X, env)
+			if as, ok := s.Init.(*ast.AssignStmt); ok && len(as.Lhs) == 1 && len(as.Rhs) == 1 && as.Tok == token.DEFINE {
+				// if x := e; c { ... }: a binding visible in the statement only
 				name := exprString(as.Lhs[0])
+				v := t.expr(as.Rhs[0], env)
 				e2 := env.clone()
-				e2.vars[name] = term{"v_" + name, kD}
-				return "match resp_swr (" + cc.s + ") with Some v_" + name + " => " + t.block(s.Body.List, e2, tail) + " | None => " + tail(env) + " end"
+				e2.vars[name] = v
+				inner := &ast.IfStmt{Cond: s.Cond, Body: s.Body, Else: s.Else}
+				return t.block(append([]ast.Stmt{inner}, stmts[1:]...), e2, rest)
+			}
+			// if v, ok := x.M(); ok [&& c] { ... }: M returns (value, ok) — an option in the model
+			as, ok := s.Init.(*ast.AssignStmt)
+			if ok && len(as.Lhs) == 2 && len(as.Rhs) == 1 {
+				if call, ok := as.Rhs[0].(*ast.CallExpr); ok && len(call.Args) == 0 {
+					if sel, ok := call.Fun.(*ast.SelectorExpr); ok {
+						recv := t.expr(sel.X, env)
+						if m, ok := optionAccessors[recv.k][sel.Sel.Name]; ok {
+							name, okName := exprString(as.Lhs[0]), exprString(as.Lhs[1])
+							e2 := env.clone()
+							e2.vars[name] = term{"v_" + name, m.k}
+							delete(e2.vars, okName) // a new variable of this name: an outer one is shadowed
+							e2.facts[okName] = true
+							c := t.cond(s.Cond, e2)
+							eNo := env.clone()
+							delete(eNo.vars, okName)
+							eNo.facts[okName] = false
+							if t.cond(s.Cond, eNo) != "false" {
+								die("%s: the condition of an if-header does not require its ok: %s", t.name, exprString(s.Cond))
+							}
+							inner := ""
+							switch c {
+							case "true":
+								inner = t.block(s.Body.List, e2, tail)
+							case "false":
+								inner = elsePart(env)
+							default:
+								inner = "if " + c + " then " + t.block(s.Body.List, e2, tail) + " else " + elsePart(env)
+							}
+							return "match " + fmt.Sprintf(m.tmpl, recv.s) + " with Some v_" + name + " => " + inner + " | None => " + elsePart(env) + " end"
+						}
+					}
+				}
 			}
 			die("%s: if-header outside the subset: %s", t.name, stmtString(s.Init))
+		}
+		if s.Else != nil {
+			c := t.cond(s.Cond, env)
+			switch c {
+			case "true":
+				return t.block(s.Body.List, env, tail)
+			case "false":
+				return elsePart(env)
+			}
+			return "if " + c + " then " + t.block(s.Body.List, env, tail) + " else " + elsePart(env)
 		}
 		// r.siep.CanStaleOnError(...) reads the clock
 		if c, ok := s.Cond.(*ast.CallExpr); ok && exprString(c.Fun) == "r.siep.CanStaleOnError" && len(c.Args) == 3 {
@@ -926,6 +1357,7 @@ type effSpec struct {
 	unit     bool
 	env      func() *eenv
 	inner    bool // translate the body of the function literal started with `go` inside fn
+	pure     bool // a function without effects: the translation is the value it returns
 	respLeaf bool // the function returns only an error; its caller goes on with the response it passed
 	pair     bool // the parameters (resp, err) are given as one origin_reply `rep`: the body is translated once per case
 }
@@ -954,7 +1386,7 @@ func translateEffects(sp effSpec, byName map[string]*ast.File, ce *cenv, out *st
 			}
 		}
 	}
-	t := &etr{name: sp.fn, ce: ce, unit: sp.unit, labels: map[string][]ast.Stmt{}}
+	t := &etr{name: sp.fn, ce: ce, unit: sp.unit, pure: sp.pure, labels: map[string][]ast.Stmt{}}
 	collectLabels(body, t.labels)
 	var term string
 	if sp.pair {
